@@ -4,6 +4,7 @@ tree, runs ./check for the given properties (default: the seeded property), rest
 Never commits anything in /repo.   usage: tools/seedrun.py C01/m1 [--tier quick] [--also C02,C13]"""
 import json, os, subprocess, sys, time
 VERIF = os.path.dirname(os.path.dirname(os.path.abspath(__file__)))
+REPO = os.environ.get("VERIF_REPO", "/repo")   # a scratch worktree may stand in for /repo (./check honours VERIF_REPO too)
 def sh(cmd, **kw): return subprocess.run(cmd, shell=True, capture_output=True, text=True, **kw)
 def main():
     seed = sys.argv[1]; tier = "quick"; also = []
@@ -14,9 +15,9 @@ def main():
         else: a = a[1:]
     pid = seed.split("/")[0]
     patch = os.path.join(VERIF, "seeded", seed, "patch.diff")
-    if sh("git -C /repo status --porcelain --untracked-files=no").stdout.strip():
-        print("refusing: /repo has local modifications"); return 2
-    r = sh("git -C /repo apply %s" % patch)
+    if sh("git -C %s status --porcelain --untracked-files=no" % REPO).stdout.strip():
+        print("refusing: %s has local modifications" % REPO); return 2
+    r = sh("git -C %s apply %s" % (REPO, patch))
     if r.returncode != 0:
         print("patch does not apply:", r.stderr[:500]); return 2
     results = {}
@@ -29,12 +30,12 @@ def main():
             print(p, r.returncode, lines[:3])
     finally:
         # undo exactly the patch (it may have added files, which a checkout would leave behind)
-        if sh("git -C /repo apply -R %s" % patch).returncode != 0:
-            sh("git -C /repo checkout -- .")
+        if sh("git -C %s apply -R %s" % (REPO, patch)).returncode != 0:
+            sh("git -C %s checkout -- ." % REPO)
             for line in open(patch):
                 if line.startswith("+++ b/"):
-                    f = os.path.join("/repo", line[6:].strip())
-                    if sh("git -C /repo ls-files --error-unmatch %s" % f).returncode != 0 and os.path.exists(f):
+                    f = os.path.join(REPO, line[6:].strip())
+                    if sh("git -C %s ls-files --error-unmatch %s" % (REPO, f)).returncode != 0 and os.path.exists(f):
                         os.remove(f)
     out = os.path.join(VERIF, "seeded", seed, "result.json")
     old = json.load(open(out)) if os.path.exists(out) else {}
